@@ -15,8 +15,8 @@ RULE = ('metamorphic: a body P printed with all keywords in lower case and the s
         'occurrence at a time) must (1) parse to the same tree up to the spelling of keyword-valued fields (bodies over '
         'every statement production, from pbt/oalsyn.py), (2) when interpreted (typed programs of C04 over the same '
         'initial population) return the same value and leave the same final population as P and as the reference '
-        'evaluator, (3) prebuild to the same ACT_*/V_*/E_* instances apart from recorded source text and ids (see '
-        'prebuild part). non-trivial = P\' differs from P in a keyword that carries semantics (many/any/one, and/or/not, '
+        'evaluator, (3) prebuild to the same ACT_*/V_*/E_* instances apart from recorded source text and ids (the prebuild '
+        'fixtures of C05, state and transition actions with generate / create event statements included). non-trivial = P\' differs from P in a keyword that carries semantics (many/any/one, and/or/not, '
         'true/false, empty/not_empty/cardinality); distinct = by (program, case map).')
 ASSUMPTIONS = [
     'identifiers are never re-cased (only words the printer emits as keywords)',
@@ -296,10 +296,10 @@ def run(ctx):
     cases_ = st.lists(st.integers(0, 3), min_size=1, max_size=25)
     choices_ = st.lists(st.integers(0, 5), min_size=1, max_size=20)
     hyp_run(ctx, res, st.fixed_dictionaries({'tape': oalsyn.tapes(400, 40), 'case': cases_, 'choices': choices_}), wrap(parse_case),
-            ctx.pick(2500, 12000), label='parse')
+            ctx.pick(2000, 12000), label='parse')
     prog = st.fixed_dictionaries({'tape': oalsyn.tapes(600, 60), 'pop': c04_interpret.populations(), 'case': cases_, 'choices': choices_,
                                   'max_stmts': st.just(ctx.pick(12, 30)), 'max_depth': st.just(ctx.pick(3, 4))})
-    hyp_run(ctx, res, prog, wrap(interpret_case), ctx.pick(700, 2500), label='interpret')
+    hyp_run(ctx, res, prog, wrap(interpret_case), ctx.pick(600, 2500), label='interpret')
     if not ctx.quick:
         hyp_run(ctx, res, prog, wrap(interpret_case, flips=True), 150, label='interpret_flips')
     from . import c08_prebuild
